@@ -1,0 +1,49 @@
+//go:build verif
+
+package signaling_rpc_client
+
+import (
+	"context"
+	"sort"
+
+	cbackoff "github.com/aperturerobotics/util/backoff/cbackoff"
+	"github.com/aperturerobotics/util/ccontainer"
+	"github.com/aperturerobotics/util/keyed"
+	"github.com/sirupsen/logrus"
+)
+
+// VerifNewControllerWithClient builds a Controller around an existing Client without a
+// controller bus, for the verification harness. conf.DisableListen must be set: the session
+// trackers then never touch the bus (no HandleSignalPeer directive is added).
+func VerifNewControllerWithClient(ctx context.Context, le *logrus.Entry, conf *Config, client *Client) *Controller {
+	c := &Controller{
+		le:             le,
+		conf:           conf,
+		listenSessions: make(map[string]*keyed.KeyedRef[string, *sessionTracker]),
+		client:         ccontainer.NewCContainer[*Client](nil),
+	}
+	c.sessionTrackers = keyed.NewKeyedRefCount[string, *sessionTracker](
+		c.newSessionTracker,
+		keyed.WithBackoff[string, *sessionTracker](func(_ string) cbackoff.BackOff {
+			return conf.GetBackoff().Construct()
+		}),
+	)
+	c.client.SetValue(client)
+	c.sessionTrackers.SetContext(ctx, true)
+	return c
+}
+
+// VerifHandlePeerWantsSession calls the controller's listen handler (handlePeerWantsSession).
+func (c *Controller) VerifHandlePeerWantsSession(ctx context.Context, reset, added bool, pid string) {
+	c.handlePeerWantsSession(ctx, reset, added, pid)
+}
+
+// VerifListenSessions returns the peers for which the controller holds an incoming session, sorted.
+func (c *Controller) VerifListenSessions() []string {
+	var out []string
+	for k := range c.listenSessions {
+		out = append(out, k)
+	}
+	sort.Strings(out)
+	return out
+}
